@@ -6,10 +6,16 @@ are REGENERATED from the package on every run (`Gen/Schemas.lean`).
 
 The model is the model of the *repaired* behaviour where the pinned commit violates C09
 (DESIGN.md section 6): a union keeps a value that already has one of its member types
-(F-C09a: the digit-string id), and `Literal[...]` members are enforced (F-C09d: discriminated
-content).  Everything else follows the code as it is: alias processing by dict assignment, defaults,
+(F-C09a: the digit-string id), `Literal[...]` members are enforced (F-C09d: discriminated
+content; an `audio` block is typed `ImageContent` by the pinned code), `Optional[Union[A,B]]` keeps
+all its members, a member named `self` is an ordinary unknown member (the pinned constructor takes
+`self` as a keyword-capable parameter).  Everything else follows the code as it is: alias processing by dict assignment, defaults,
 extras kept, `None` handling, member-by-member union trial in declaration order, the str/int/bool
 coercions, post-init hooks, `model_dump(by_alias, exclude_none)`.
+
+Specification side (same file): `conforms` (spec-valid wire value of a type), `expected` (the value
+`dump ∘ validate` must produce), `unamb` (no earlier union member accepts), `Preserved` / `AddedOk`
+(C10: what the round trip keeps and what it may add).
 
 Private minimal `Json` (another builder owns `Model/Json.lean`; to be unified by the lead):
 floats are opaque tokens, integral floats are canonicalised to `int` by the harness.
